@@ -42,6 +42,23 @@ func boolExpr(e ast.Expr, vocab map[string]string) (string, bool) {
 	return "false", false
 }
 
+func containsWord(s, w string) bool {
+	for i := 0; i+len(w) <= len(s); i++ {
+		if s[i:i+len(w)] == w {
+			before := i == 0 || !isWordByte(s[i-1])
+			after := i+len(w) == len(s) || !isWordByte(s[i+len(w)])
+			if before && after {
+				return true
+			}
+		}
+	}
+	return false
+}
+
+func isWordByte(b byte) bool {
+	return b == '_' || (b >= 'a' && b <= 'z') || (b >= 'A' && b <= 'Z') || (b >= '0' && b <= '9')
+}
+
 func cmpOp(op token.Token) (string, bool) {
 	switch op {
 	case token.GEQ:
@@ -293,18 +310,32 @@ func factGuards() {
 			return true
 		})
 	}
-	def := func(id, what, got, dflt string) string {
+	def := func(id, what, got, dflt string, allowed ...string) string {
 		if got == "" {
 			miss(id, what)
 			return dflt
 		}
+		// the Lean definition only binds `allowed`: an expression over other variables cannot be
+		// represented, so the tie is reported broken (and the previous form kept so that the model still builds)
+		for _, v := range []string{"skipVerify", "suppress", "delay", "skipInitial"} {
+			ok := false
+			for _, a := range allowed {
+				if a == v {
+					ok = true
+				}
+			}
+			if !ok && containsWord(got, v) {
+				miss(id, what+" — now depends on `"+v+"`: "+got)
+				return dflt
+			}
+		}
 		return got
 	}
-	initV = def("F5", "dials.go Config: `if vf, ok := newValue.(VerifiedConfig); <cond>`", initV, "((true && (!skipInitial)) && (!delay))")
-	updV = def("F6a", "dials.go updateSourceValue: `if vf, ok := newInterface.(VerifiedConfig); <cond>`", updV, "(true && (!skipVerify))")
-	supp = def("F6b", "dials.go monitor: newConfigEvent{globalCBsSuppressed: <expr>}", supp, "(skipVerify && suppress)")
-	srcErr = def("F6c", "dials.go monitor: case *watchErrorReport: if <cond>", srcErr, "(!(skipVerify && suppress))")
-	skip0 = def("F6d", "dials.go monitor: skipVerify := <expr>", skip0, "delay")
+	initV = def("F5", "dials.go Config: `if vf, ok := newValue.(VerifiedConfig); <cond>`", initV, "((true && (!skipInitial)) && (!delay))", "skipInitial", "delay")
+	updV = def("F6a", "dials.go updateSourceValue: `if vf, ok := newInterface.(VerifiedConfig); <cond>`", updV, "(true && (!skipVerify))", "skipVerify")
+	supp = def("F6b", "dials.go monitor: newConfigEvent{globalCBsSuppressed: <expr>}", supp, "(skipVerify && suppress)", "skipVerify", "suppress")
+	srcErr = def("F6c", "dials.go monitor: case *watchErrorReport: if <cond>", srcErr, "(!(skipVerify && suppress))", "skipVerify", "suppress")
+	skip0 = def("F6d", "dials.go monitor: skipVerify := <expr>", skip0, "delay", "delay")
 	emit("/-- F5: guard of the initial Verify() call in Params.Config -/\ndef initialVerify (skipInitial delay : Bool) : Bool := %s\n\n", initV)
 	emit("/-- F6a: guard of the Verify() call after a re-stack -/\ndef verifyOnUpdate (skipVerify : Bool) : Bool := %s\n\n", updV)
 	emit("/-- F6b: `globalCBsSuppressed` of a new-config event -/\ndef suppressNew (skipVerify suppress : Bool) : Bool := %s\n\n", supp)
